@@ -149,6 +149,72 @@ def owning_fields(adt, inner):
     return {(v['name'], fl['name']) for v in (adt or {}).get('variants', ()) for fl in v['fields'] if owns_by_value(fl['ty'], inner)}
 
 
+def _split_top(s):
+    """comma-separated parts of s at nesting depth 0"""
+    out, depth, cur = [], 0, ''
+    for ch in s:
+        if ch in '<([':
+            depth += 1
+        elif ch in '>)]':
+            depth -= 1
+        if ch == ',' and depth == 0:
+            out.append(cur.strip())
+            cur = ''
+        else:
+            cur += ch
+    if cur.strip():
+        out.append(cur.strip())
+    return out
+
+
+def owns_deep(prog, ty, inner, depth=0):
+    """dropping a value of type `ty` drops an `inner` it holds by value: `ty` is `inner`, an Option / Box of such a type, a
+    tuple / array with such a component, or a workspace struct / enum with such a field (a private struct that carries the
+    RAII values across a function boundary).  References, Rc / Arc, ManuallyDrop and generic parameters do not qualify."""
+    ty = (ty or '').strip()
+    if depth > 5 or not ty or ty.startswith(('&', '*')):
+        return False
+    if owns_by_value(ty, inner):
+        return True
+    for wr in OWNING_WRAPPERS:
+        if ty.startswith(wr + '<') and ty.endswith('>'):
+            return owns_deep(prog, ty[len(wr) + 1:-1], inner, depth + 1)
+    if ty.startswith('(') and ty.endswith(')'):
+        return any(owns_deep(prog, t, inner, depth + 1) for t in _split_top(ty[1:-1]))
+    if ty.startswith('[') and ty.endswith(']'):
+        return owns_deep(prog, ty[1:-1].rsplit(';', 1)[0], inner, depth + 1)
+    adt = prog.adts.get(ty.split('<')[0].strip())
+    if adt is None or ty.startswith('std::'):
+        return False
+    return any(owns_deep(prog, fl['ty'], inner, depth + 1) for v in adt.get('variants', ()) for fl in v['fields'])
+
+
+def owned_across(prog, fn, call, inner):
+    """Is a value owning an `inner` alive in fn's frame while `call` (a call in fn) runs, and released by the frame
+    afterwards on both ways out?  -> (drops on the normal path after the call returned, drops on its unwind path): drop
+    terminators of places whose type owns `inner` by value (owns_deep) — whatever local / field of a carrier struct holds
+    it — in blocks dominated by the call's return target resp. reachable from its unwind target, the place's root local
+    having been assigned before the call (not on a path from it)."""
+    t = fn.blocks[call.bb]['t']
+    ret, unw = t.get('to'), t.get('unw')
+    after = fn.reachable(call.bb)
+    on_unwind = (fn.reachable(unw) | {unw}) if isinstance(unw, int) else set()
+    normal, unwind = [], []
+    for bi, b in enumerate(fn.blocks):
+        d = b['t']
+        if d['t'] != 'drop' or not owns_deep(prog, d.get('pty'), inner):
+            continue
+        root = d['p'][0]
+        defs = fn.whole_defs(root)
+        if root > fn.argc and (not defs or any(x[1] in after and x[1] != call.bb for x in defs)):
+            continue
+        if not b['cleanup'] and isinstance(ret, int) and (bi == ret or fn.dominates(ret, bi)):
+            normal.append(d['p'])
+        elif b['cleanup'] and bi in on_unwind:
+            unwind.append(d['p'])
+    return normal, unwind
+
+
 def held(v):
     """the value held by `Some(x)` / `Box::new(x)` wrappers around it"""
     v = strip(v)
@@ -501,6 +567,69 @@ def _vec_local(fn, operand):
     if m is None or m <= fn.argc:
         return None
     return m if fn.local_ty(m).startswith('std::vec::Vec<') else None
+
+
+def _vec_home(prog, e, argi):
+    """The frame in which the vector behind argument `argi` of the sink call of effect e lives: the sink's own function,
+    or — when the vector reaches it as a parameter that is only moved / borrowed on (`command_with_args("docker", args)`,
+    `push_flag(&mut args, ..)`) — the caller's frame at that level of the effect's call chain, and so on upwards.
+    -> (fn, vector local | None, mapping of that level, passed): passed = [(fn, parameter local)] of the frames the vector
+    travels through on its way to the sink (they must not modify it: _vec_other_writers)"""
+    from .lib.mir import op_place
+    levels = _levels(e)
+    li = len(levels) - 1
+    call, mp = levels[li]
+    passed = []
+    if argi >= len(call.args):
+        return call.fn, None, mp, passed
+    op = call.args[argi]
+    while True:
+        g = call.fn
+        pl = op_place(op)
+        m = _through_moves(g, pl) if pl is not None else None
+        if m is None:
+            return g, None, mp, passed
+        if 1 <= m <= g.argc and li > 0 and g.kind != 'Closure':
+            up, ump = levels[li - 1]
+            if not up.indirect and len(up.args) == g.argc and any(x is g for x in prog.callee_fns(up)):
+                passed.append((g, m, call))
+                li, call, mp, op = li - 1, up, ump, up.args[m - 1]
+                continue
+        if m <= g.argc:
+            return g, None, mp, passed
+        return g, (m if g.local_ty(m).startswith('std::vec::Vec<') else None), mp, passed
+
+
+def _passed_writers(passed):
+    """what the frames a vector is handed through do to it besides handing it on: mutable borrows of the parameter (or of
+    a local it is moved to) that do not end in the sink call itself"""
+    from .lib.mir import op_place
+    bad = []
+    for g, m, sink in passed:
+        aliases = {m}
+        changed = True
+        while changed:
+            changed = False
+            for b in g.blocks:
+                for st in b['s']:
+                    if st[0] == '=' and len(st[1]) == 1 and st[1][0] not in aliases and st[2]['r'] == 'use' and \
+                            op_place(st[2]['o']) is not None and op_place(st[2]['o'])[0] in aliases and len(op_place(st[2]['o'])) == 1:
+                        aliases.add(st[1][0])
+                        changed = True
+        for a in sorted(aliases):
+            if g.local_ty(a).startswith('&mut '):
+                # a `&mut Vec` parameter: every use other than the sink call may change the vector
+                for c in g.calls:
+                    if c is not sink and any((op_place(x) or [None])[0] in aliases for x in c.args):
+                        bad.append('%s in %s' % (c.name or 'indirect call', g.path.split('::')[-1]))
+                for b in g.blocks:
+                    for st in b['s']:
+                        if st[0] == '=' and st[2]['r'] == 'ref' and st[2].get('mut') and st[2]['p'][0] == a and \
+                                not any(c is sink and (op_place(x) or [None])[0] == st[1][0] for c in g.calls for x in c.args):
+                            bad.append('a reborrow in %s' % g.path.split('::')[-1])
+            else:
+                bad.extend('%s in %s' % (wr, g.path.split('::')[-1]) for wr in _vec_other_writers(g, a))
+    return bad
 
 
 def _derives(fn, local, box, depth=6):
@@ -898,13 +1027,16 @@ def argv_model(prog, sl, fn):
     program = None
     items = []
     vec_effs = {}
+    vec_passed = {}
     main = []
     for e in effs:
         if e.kind == 'CMD_NEW':
             v = strip(e.args[0])
             program = v[1] if v[0] == 'const' else vstr(v)
         elif e.kind in ('VEC_PUSH', 'VEC_EXTEND'):
-            vec_effs.setdefault((e.call.fn.path, _vec_local(e.call.fn, e.call.args[0])), []).append(e)
+            hg, hm, _, hp = _vec_home(prog, e, 0)
+            vec_passed.setdefault((hg.path, hm), []).extend(hp)
+            vec_effs.setdefault((hg.path, hm), []).append(e)
         else:
             main.append(e)
 
@@ -1009,19 +1141,19 @@ def argv_model(prog, sl, fn):
         if e.kind == 'CMD_ARG':
             contribute(e, e.args[1], False)
             continue
-        g = e.call.fn
-        m = _vec_local(g, e.call.args[1]) if len(e.call.args) > 1 else None
+        # the frame that owns the vector: the one issuing `args`, or a caller handing the vector to a private assembler
+        g, m, hmp, passed = _vec_home(prog, e, 1)
         key = (g.path, m)
         init = _vec_initial(sl, g, m) if m is not None else None
         if m is not None and (key in vec_effs or init is not None):
             # a vector filled with push / extend and handed over whole: its contributions, at this position
             spliced.add(key)
-            mp = e.mapping or {}
+            mp = hmp or {}
             if init is None:
                 items.append(Item('args', [('other', 'initial contents of the vector %s' % (g.local_name(m) or m))], [], None, e.call))
             elif init:
                 contribute(e, ('array', tuple(E.subst(x, mp) for x in init)), True)
-            for wr in _vec_other_writers(g, m):
+            for wr in _vec_other_writers(g, m) + _passed_writers(passed + vec_passed.get(key, [])):
                 items.append(Item('args', [('other', 'the vector %s is also modified by %s' % (g.local_name(m) or m, wr))], [], None, e.call))
             for pe in vec_effs.get(key, []):
                 if len(pe.args) > 1:
@@ -1048,11 +1180,20 @@ def canon_eq(a, b):
     return canon(a) == canon(b)
 
 
+def disturbed(model):
+    """reasons why the words of the model may not reach the command as listed: the vector they were collected in is also
+    modified by something that is not push / extend (retain, truncate, sort, a helper borrowing it mutably) — the listed
+    words then say nothing about presence or order"""
+    if model is None:
+        return []
+    return [it.elems[0][1] for it in model[1] if it.elems and it.elems[0][0] == 'other' and ' is also modified by ' in str(it.elems[0][1])]
+
+
 def word_conditions(model, word):
     """conditions under which the literal argv word is emitted, one entry per occurrence in the argv model: [[(field,
     outcome)..]..]; None when an occurrence is emitted under a condition / in a loop that is not understood, or when the
     word does not occur but part of the argv is opaque (it may hide there)"""
-    if model is None:
+    if model is None or disturbed(model):
         return None
     _, items = model
     occ = [it for it in items if it.elems == [('const', word)]]
